@@ -108,6 +108,8 @@ class Exec:
         self.facts_seen = set()
         self.path_id = ""
         self.sym_names: dict = {}
+        self.pattern_names: dict = {}
+        self.callee_stats: dict = {}
         from .intrinsics import Intrinsics
 
         self.intr = Intrinsics(self)
@@ -247,6 +249,12 @@ class Exec:
             if v != v or v in (float("inf"), float("-inf")):
                 raise Unsupported("non-finite float lifted to Real")
             return z3.RealVal(repr(v)), "real"
+        if isinstance(v, EnumVal):
+            return z3.Const(f"enum.{v.enum}.{v.member}", ObjSort), "any"
+        if v is None:
+            return z3.Const("box.None", ObjSort), "any"
+        if isinstance(v, (HObj, HDict, HList)):
+            return self.box(v), "any"
         raise Unsupported(f"cannot lift {type(v).__name__}")
 
     def to_int_term(self, v):
@@ -268,7 +276,7 @@ class Exec:
         raise Unsupported(f"str term of {v!r}")
 
     def is_concrete(self, v):
-        if isinstance(v, (SV, HObj, HList, HDict, HJoin, ExcVal, FuncRef, BoundMethod, ClassRef)):
+        if isinstance(v, (SV, HObj, HList, HDict, HJoin, HSpecList, ExcVal, FuncRef, BoundMethod, ClassRef)):
             return False
         if isinstance(v, Tagged):
             return False
@@ -832,14 +840,14 @@ class Exec:
         for recv in mut_calls:
             if isinstance(recv, ast.Name) and frame.has(recv.id):
                 cur = frame.lookup(recv.id)
-                if isinstance(cur, (HJoin, HList, HDict)):
+                if isinstance(cur, (HJoin, HList, HDict, HSpecList)):
                     self.havoc_heap(recv.id, cur, types.get(recv.id))
             elif isinstance(recv, ast.Attribute):
                 try:
                     obj = self.eval(recv, frame)
                 except (Signal, KeyError):
                     continue
-                if isinstance(obj, (HJoin, HList, HDict)):
+                if isinstance(obj, (HJoin, HList, HDict, HSpecList)):
                     self.havoc_heap(recv.attr, obj, types.get(recv.attr))
         for fld in spec.get("havoc_fields", []):
             oname, _, fname = fld.partition(".")
@@ -847,6 +855,15 @@ class Exec:
             obj.fields[fname] = self.havoc_value(fname, obj.fields[fname], types.get(fname))
 
     def havoc_heap(self, name, obj, ty):
+        if isinstance(obj, HSpecList):
+            for k, v in list(obj.state.items()):
+                if isinstance(v, z3.ExprRef) and z3.is_int(v) and k not in ("n", "lo"):
+                    obj.state[k] = self.fresh(f"{name}.{k}", "int").t
+                elif isinstance(v, list):
+                    obj.state[k] = []
+            if "havoc" in obj.hooks:
+                obj.hooks["havoc"](self, obj)
+            return
         if isinstance(obj, HJoin):
             obj.acc = self.fresh(name, "str")
         elif isinstance(obj, HList):
@@ -855,7 +872,7 @@ class Exec:
                 if obj.items:
                     _, elem = self.lift(obj.items[0])
                 else:
-                    raise Unsupported(f"havoc of list {name}: element kind unknown (give loop types)")
+                    elem = "any"  # an empty list: its future elements are read as opaque values
             obj.items = None
             obj.sym = self.fresh(name, ("seq", elem))
         elif isinstance(obj, HDict):
@@ -864,7 +881,7 @@ class Exec:
     def havoc_value(self, name, cur, ty=None):
         if ty is not None:
             return ty.fresh(self, name)
-        if isinstance(cur, (HJoin, HList, HDict)):
+        if isinstance(cur, (HJoin, HList, HDict, HSpecList)):
             return cur  # heap content havocked through mutator scan
         if isinstance(cur, HObj):
             return cur
@@ -1082,6 +1099,13 @@ class Exec:
             return frame.lookup(name)
         except KeyError:
             pass
+        am = self.contract._alias_map or {}
+        if self.pure and (name in am or (name.startswith("pre_") and name[4:] in am)):
+            real = am[name] if name in am else "pre_" + am[name[4:]]
+            try:
+                return frame.lookup(real)
+            except KeyError:
+                pass
         if name in self.contract.globals_:
             f = self
             key = ("global", name)
@@ -1138,6 +1162,27 @@ class Exec:
         elif isinstance(v, (HObj, HList, HDict)):
             self.shared[key] = v  # one object per path (module-level singletons such as context.builtin)
         return v
+
+    def native_constant(self, modname, qual):
+        """Constant folding by evaluation: import the module from the repository under verification and
+        read a module/class-level constant (only for values the symbolic evaluator cannot build, e.g.
+        compiled regular expressions). The import runs the repository's import-time code natively."""
+        import sys
+
+        root = self.repo.root
+        if sys.path[0] != root:
+            sys.path.insert(0, root)
+        try:
+            obj = importlib.import_module(modname)
+            for p in qual.split("."):
+                obj = getattr(obj, p)
+        except Exception as e:  # noqa: BLE001
+            raise Unsupported(f"cannot evaluate constant {modname}:{qual} natively: {type(e).__name__}: {e}")
+        f = getattr(sys.modules.get(modname), "__file__", "") or ""
+        if not f.startswith(root):
+            raise Unsupported(f"module {modname} was imported from {f}, not from {root}")
+        self.used_intrinsics.add(f"constant {modname}:{qual} folded by importing the module from the tree under verification")
+        return obj
 
     def external_module(self, name):
         try:
@@ -1252,8 +1297,11 @@ class Exec:
 
     def ex_List(self, node, frame, target_hint=None):
         items = list(self.ex_Tuple(node, frame))
-        if not items and target_hint and self.contract.local_kind(frame.fname, target_hint) == "join":
+        kind = self.contract.local_kind(frame.fname, target_hint) if (not items and target_hint) else None
+        if kind == "join":
             return HJoin("")
+        if callable(kind):
+            return kind(self, target_hint)  # a contract-supplied ghost abstraction of this local list
         return HList(items=items)
 
     def ex_Set(self, node, frame):
@@ -1722,9 +1770,16 @@ class Exec:
             if self.decide(b):
                 # frame effects on the raising path
                 self.havoc_modifies(c, fr, exceptional=True)
+                excv = self.make_repo_exc(exc_name, fref.mod)
+                if c.post_exc.get(exc_name):
+                    tm = self.repo.module("liquid2.token")
+                    if tm is not None and "ErrorToken" in tm.classes:
+                        excv.attrs["token"] = HObj(ClassRef("ErrorToken", tm, tm.classes["ErrorToken"]),
+                                                   {"index": self.fresh("err_index", "int"), "__open__": True})
+                fr.locals["exc"] = excv
                 for clause in c.post_exc.get(exc_name, []):
                     self.assume(self.spec_bool(clause, fr))
-                raise RaiseSig(self.make_repo_exc(exc_name, fref.mod))
+                raise RaiseSig(excv)
         self.havoc_modifies(c, fr)
         res = c.returns.fresh(self, f"ret_{tag}") if c.returns is not None else None
         if c.returns is None and any("result" in cl for cl in c.post):
@@ -1732,9 +1787,14 @@ class Exec:
         fr.locals["result"] = res
         for clause in c.post:
             self.assume(self.spec_bool(clause, fr))
-        # vacuity guard: a callee contract must not contradict the caller's path
+        # vacuity guard: a callee contract must not contradict the caller's path. A single infeasible
+        # combination (e.g. a result case the postcondition excludes) just ends this path; a callee whose
+        # contract kills *every* path it is applied on is reported (verify.py) as inconsistent.
+        st = self.callee_stats.setdefault(c.target, [0, 0])
+        st[0] += 1
         if self.check_sat([]) == z3.unsat:
-            raise Unsupported(f"assuming the contract of {c.target} makes the path infeasible (inconsistent contract or precondition)")
+            raise PathEnd(f"contract of {c.target} excludes this combination")
+        st[1] += 1
         return res
 
     def make_repo_exc(self, name, mod):
@@ -1750,12 +1810,14 @@ class Exec:
             if obj is None:
                 continue
             if not fname:
-                if isinstance(obj, (HList, HJoin, HDict)):
+                if isinstance(obj, (HList, HJoin, HDict, HSpecList)):
                     self.havoc_heap(oname, obj, None)
                 continue
             if isinstance(obj, HObj):
                 cur = obj.fields.get(fname)
-                if isinstance(cur, (HList, HJoin, HDict)):
+                if isinstance(cur, SLazy):
+                    cur = self.resolve_lazy(cur)
+                if isinstance(cur, (HList, HJoin, HDict, HSpecList)):
                     self.havoc_heap(fname, cur, None)
                 else:
                     obj.fields[fname] = self.havoc_value(fname, cur)
@@ -1784,6 +1846,13 @@ class Exec:
                 return n
             if isinstance(v, HJoin):
                 n = HJoin(v.acc)
+                return n
+            if isinstance(v, HSpecList):
+                if id(v) in memo:
+                    return memo[id(v)]
+                n = HSpecList(v.name, v.hooks, dict(v.state))
+                n.orig = getattr(v, "orig", v)
+                memo[id(v)] = n
                 return n
             if isinstance(v, HDict):
                 if id(v) in memo:
